@@ -42,7 +42,7 @@ func c18Snapshot(s *state.State) string {
 func TestC18(t *testing.T) {
 	col := ev.New("C18", "rapid state machine over state.State: register stores of constant and symbolic values (incl. loads of the destination register itself and of other registers of the file) with "+
 		"value width <, =, > store width, register loads at any width, Apply of register stores and of memory stores "+
-		"with constant, foldable (constant sub-tree) and non-constant addresses (register + constant, register shifted by 1-63 bits, register NAND constant, memory load). Model: key -> (expression, store width); "+
+		"with constant, foldable (constant sub-tree) and non-constant addresses (register + constant, register shifted by 1-63 bits, register NAND constant, memory load, register + arithmetic on the very constant object a register holds). Model: key -> (expression, store width); "+
 		"loaded expression evaluated by the math/big evaluator under 2 valuations must equal fit(fit(value,w_store),w_load). "+
 		"non-trivial = history with a load narrower or wider than the store width of a symbolic value and a refused "+
 		"memory store; distinct by history rendering")
@@ -58,6 +58,10 @@ func TestC18(t *testing.T) {
 		var mismLoad, refused bool
 		envSeeds := []uint64{drawEnvSeed(t, "env1"), drawEnvSeed(t, "env2")}
 
+		// constants the register file holds as they were handed in (a store keeps a
+		// constant of the store's width): later address expressions reuse the very
+		// same constant objects
+		var shared []expr.Const
 		doStore := func(viaApply bool) {
 			k := keys[rapid.IntRange(0, len(keys)-1).Draw(t, "key")]
 			v := irsem.GenExpr(t, irsem.GenCfg{MaxDepth: 2, GadgetProb: 10})
@@ -101,6 +105,9 @@ func TestC18(t *testing.T) {
 				}
 			}
 			regs[k] = c18Reg{v, w}
+			if c, ok := v.(expr.Const); ok && c.Width() == w && w >= 2 {
+				shared = append(shared, c)
+			}
 			hist += fmt.Sprintf("store(%s,%s,%d);", k, irsem.String(v), w)
 		}
 
@@ -161,7 +168,22 @@ func TestC18(t *testing.T) {
 				default: // not constant
 					r := expr.NewRegLoad("x2", 8)
 					sh := irsem.Const(big.NewInt(int64(1+rapid.IntRange(0, 62).Draw(t, "shiftBits"))), 1)
-					switch rapid.IntRange(0, 4).Draw(t, "dynKind") {
+					dk := rapid.IntRange(0, 4).Draw(t, "dynKind")
+					if len(shared) > 0 && rapid.IntRange(0, 2).Draw(t, "sharedConst") == 0 {
+						dk = 5
+					}
+					switch dk {
+					case 5:
+						// unknown register + arithmetic on a constant object a register holds,
+						// at a width narrower than that constant
+						c := shared[rapid.IntRange(0, len(shared)-1).Draw(t, "sharedWhich")]
+						nw := expr.Width(rapid.IntRange(1, int(c.Width())-1).Draw(t, "sharedW"))
+						op := []expr.BinaryOp{expr.Mul, expr.Div, expr.Add, expr.Lsh}[rapid.IntRange(0, 3).Draw(t, "sharedOp")]
+						var part expr.Expr = expr.NewBinary(op, c, irsem.Const(big.NewInt(int64(rapid.IntRange(1, 9).Draw(t, "sharedK"))), 1), nw)
+						if op == expr.Lsh {
+							part = expr.NewBinary(expr.Lsh, irsem.Const(big.NewInt(3), 2), c, nw) // the shared constant as shift amount
+						}
+						addr = expr.NewBinary(expr.Add, r, part, 8)
 					case 0:
 						addr = expr.NewBinary(expr.Add, r, irsem.Const(new(big.Int).SetUint64(base), 8), 8)
 					case 1: // register shifted left by 1..63 bits: some of its bits survive
